@@ -11,50 +11,50 @@ CLAIMED = {
  "C02": ("Bounded symbolic history (vote attempts with symbolic kind/round/index, context changes, crash+restart on the same database) over the real VoteDB code; a ghost list of signed votes decides 'at most one per kind, round, index'.",
          "Trusted: gosym, z3; signatures and RLP of VoteItem idealised (native replay uses the real ones); rounds do not go back across restarts; history length 4/5.",
          "solver-based symbolic execution of go/ssa (bv), bounded history with symbolic arguments"),
- "C03": ("Tally and escalation kernels: bounded symbolic vote histories over the real VoteSta against 'first votes of non-equivocating senders'; one step of the real judgeVoteCount from an arbitrary voter state (precommit only on a prevote quorum, certificate vote / commit only with every required quorum); the real float64 OverThreshold equals floor(0.685 T) / floor(0.585 T) in the FloatingPoint theory.",
-         "Trusted: gosym, z3. NOT covered: message caching, goroutines, credential checks of incoming votes, and 'the vote set attached to a commit verifies' (multi-step).",
+ "C03": ("Tally and escalation kernels: bounded symbolic vote histories over the real VoteSta against 'first votes of non-equivocating senders'; one step of the real judgeVoteCount from an arbitrary voter state (precommit only on a prevote quorum, certificate vote / commit only with every required quorum); the real float64 OverThreshold against the rational fractions 0.685 T / 0.585 T in the FloatingPoint theory (reaching the fraction passes; passing is less than one vote below it); bounded vote histories through the real VotesWrapper/judgeVoteCount/commit, also across a real round-index change: every posted CommitEvent carries vote sets that reach their quorums.",
+         "Trusted: gosym, z3. NOT covered: message caching, goroutines, credential checks of incoming votes. One open known finding (commit packs vote sets reduced by a later equivocation).",
          "solver-based symbolic execution of go/ssa (bv + FloatingPoint lemma)"),
  "C04": ("Control skeleton only: search on every monotone predicate; choose's branches with gonum's CDF as an unknown non-decreasing function (least-j quantile, 0<=j<=stake, mirrored branch); MakeM injectivity; VrfVerifySortition/VrfVerifyPriority bind key, message, stake, threshold/total and seat count under an idealised VRF; computePriority is the maximum per-seat hash.",
          "Trusted: gosym, z3 (FloatingPoint + UF). NOT covered (the numeric heart): that gonum's float64 incomplete-beta CDF is the binomial CDF, float rounding, stakes beyond the small bound. One open known finding (zero-seat proposer).",
          "solver-based symbolic execution of go/ssa with uninterpreted monotone CDF"),
  "C05": ("Real processDoubleSignV5/doPenalize/takePenalty on the real StateDB with an arbitrary well-typed evidence and BLS idealised behind the repo's interfaces with a signing oracle (honest: at most one hash per vote kind per round/index): honest safety, equivocation penalised once within the fraction and credited to the penalty account, takePenalty cap/conservation/non-negativity/consistency with delegations and pending withdrawals.",
-         "Trusted: gosym, z3; BLS idealisation; one validator in the look-back set, two pairs. Two open known findings (duplicate pair, cross-kind).",
+         "Trusted: gosym, z3; BLS idealisation; one validator in the look-back set, two pairs. Re-inclusion of one evidence in two blocks is penalised at most once. Two open known findings (duplicate pair, cross-kind).",
          "solver-based symbolic execution of go/ssa (SMT Int mode) with uninterpreted signing oracle"),
- "C06": ("End-of-block staking kernels only: rewardsToPool and distributeRewards give the same state under every Go map iteration order (self-composition on a Copy, executor forks over all orders); builder slashing vs importing node's replaySlashing of the written slash data for an arbitrary double-sign evidence.",
+ "C06": ("End-of-block staking kernels only: rewardsToPool, distributeRewards and the validator pass slashingAndRecoveringYouV5 (state and order of emitted logs) give the same result under every Go map / sync.Map iteration order (self-composition on a Copy, executor forks over all orders); builder slashing vs importing node's replaySlashing of the written slash data for an arbitrary double-sign evidence.",
          "Trusted: gosym, z3, StateDB.Copy (C10). NOT covered: whole-block determinism through EVM, RLP, tries, receipts, caches. One open known finding (zero-penalty expulsion not replayed).",
          "solver-based symbolic execution of go/ssa with map-order permutation and self-composition"),
- "C07": ("One inductive step per end-of-block value-moving kernel (blockRewards+rewardsToPool, distributeRewards, settleValidatorRewards, processWithdrawQueue) with a ghost sum over balances, reward accounts, role pools, residue, pending withdrawals and the block's fees; penalties are in C05, fee charging in C17.",
-         "Trusted: gosym, z3 (non-linear Int, standalone fallback); online validators hold >= 1 stake unit; staking tx handlers and EVM transfers outside. One open known finding (forced settle loses rewards).",
+ "C07": ("One inductive step per end-of-block value-moving kernel (blockRewards+rewardsToPool, distributeRewards, settleValidatorRewards, processWithdrawQueue) with a ghost sum over balances, reward accounts, role pools, residue, pending withdrawals and the block's fees; penalties are in C05, fee charging in C17 (whose staking-converter contract harness - reported gas = consumed gas - also runs here).",
+         "Trusted: gosym, z3 (non-linear Int, standalone fallback); online validators hold >= 1 stake unit; individual staking action handlers and EVM transfers outside. One open known finding (forced settle loses rewards).",
          "solver-based symbolic execution of go/ssa (SMT Int mode, non-linear), inductive conservation step"),
- "C08": ("Inductive step on the real StateDB validator/delegation code from an arbitrary consistent two-validator state (symbolic role/status/token, a delegation): statistics = recomputation, index = live set, per-validator sums and delegator links after every mutation and after its revert.",
+ "C08": ("Inductive step on the real StateDB validator/delegation code from an arbitrary consistent two-validator state (symbolic role/status/token, a delegator with up to two delegations): statistics = recomputation, index = live set, per-validator sums and delegator links after every mutation and after its revert.",
          "Trusted: gosym, z3; fake Database/Trie behind the repo's own interfaces; PubToAddress/RLP of the delegator list idealised; commit+reload outside.",
          "solver-based symbolic execution of go/ssa (SMT Int mode), inductive invariant step"),
- "C09": ("Real Snapshot/RevertToSnapshot/Finalise/journal over a fake trie: every operation sequence of the bound follows a snapshot-stack model with both revision lists exact; mutate-then-revert restores every account and validator observable from an arbitrary small pre-state.",
+ "C09": ("Real Snapshot/RevertToSnapshot/Finalise/journal over a fake trie: every operation sequence of the bound follows a snapshot-stack model with both revision lists exact; mutate-then-revert restores every account and validator observable from an arbitrary small pre-state; a reverted frame leaves no trace in the committed content either (twin runs over a snapshot store, content reopened from the committed roots).",
          "Trusted: gosym, z3; roots after revert (hashing) outside; sequences of 6/7 operations, 2 accounts, 2 validators, 2 withdraw records.",
          "solver-based symbolic execution of go/ssa (bv + Int), bounded sequences and one-step inverse"),
- "C10": ("Copy half only: a fresh StateDB.Copy is observationally equal to the original and one arbitrary mutation of either side never shows on the other (exact object identity in the executor); ValidatorIndex.List ordering for all sync.Map iteration orders.",
-         "Trusted: gosym, z3. NOT covered: commit->reopen equality and order-independence of the three roots (reflection RLP, keccak, node database).",
+ "C10": ("Copy half: a fresh StateDB.Copy is observationally equal to the original and one arbitrary mutation of either side never shows on the other (exact object identity in the executor); ValidatorIndex.List ordering for all sync.Map iteration orders. Reopen half: after arbitrary writes (accounts, storage, code; validators, delegation, withdraw queue) with transaction ends, intermediate roots and commits at arbitrary positions, the state reopened from the committed roots shows the live object's persistent content and that of a twin run that flushed only once.",
+         "Trusted: gosym, z3; snapshot store behind the repo's Trie/Database interfaces (a root identifies the flushed content; 'same content => same root' rests on C13/C14); the codec is modelled as the identity on whole objects (fields dropped by custom EncodeRLP/DecodeRLP outside); EIP-158 view of existence.",
          "solver-based symbolic execution of go/ssa (SMT Int mode) with map-order permutation"),
- "C12": ("Inductive step over the real VerifyYouVersionState with ghost state from every invariant-satisfying header and every valid 3-version parameter table (all symbolic); builder ProcessYouVersionState subset of verifier.",
+ "C12": ("Inductive step over the real VerifyYouVersionState with ghost state from every invariant-satisfying header and every valid 3-version parameter table (all symbolic); builder ProcessYouVersionState subset of verifier; chains of 3/4 headers through the real chain-level VerifyYouVersionState2 with the ghost computed from the history (no invariant assumed); VersionForRoundWithParents reads the parameters of the header 8 rounds back without leaving the batch.",
          "Trusted: gosym, z3; parameter tables restricted to the stated validity predicate; numbers < 2^40. One open known finding (late approval).",
          "solver-based symbolic execution of go/ssa (SMT Int mode), inductive invariant step"),
- "C13": ("Structural half: compact/hex key encodings on symbolic nibble strings, decodeNode on every byte string up to the bound (+ shaped full nodes), in-memory insert/delete/get against an association-list model and a canonical rebuild (history independence before hashing).",
-         "Trusted: gosym, z3; canonical nibble labelling (symmetry of the trie code under per-position relabelling). NOT covered: hashing/root value, Prove/VerifyProof, iterator order, commit/reopen, node DB GC.",
+ "C13": ("Structural half: compact/hex key encodings on symbolic nibble strings, decodeNode on every byte string up to the bound (+ shaped full nodes), in-memory insert/delete/get against an association-list model and a canonical rebuild (history independence before hashing), also after commit+reopen with hash references resolved through the real simplifyNode/expandNode pair (incl. prefix keys / branch values).",
+         "Trusted: gosym, z3; canonical nibble labelling (symmetry of the trie code under per-position relabelling). NOT covered: hashing/root value, Prove/VerifyProof, iterator order, the hasher/committer and disk format, node DB GC.",
          "solver-based symbolic execution of go/ssa (bv)"),
- "C14": ("Primitive layer: every byte string of the stated lengths through rlp.Split*/CountValues/readKind/readSize and Stream.Bytes/Uint/Raw/List; accept => canonical against an independent Yellow-Paper encoder; encoder heads for every 64-bit size; allocation bounded by input.",
-         "Trusted: gosym, z3. NOT covered: reflect-driven composite encode/decode and the handlers built on it.",
+ "C14": ("Primitive layer: every byte string of the stated lengths through rlp.Split*/CountValues/readKind/readSize and Stream.Bytes/Uint/Raw/List; accept => canonical against an independent Yellow-Paper encoder; encoder heads for every 64-bit size; allocation bounded by input; the reflect-facing leaf decoders/writers (big.Int, uint64, []byte, string, bool) and the rlp:\"nil\" optional-pointer decoder on a minimal reflect model.",
+         "Trusted: gosym incl. its minimal reflect model, z3. NOT covered: struct/list decoders, the type cache, custom EncodeRLP/DecodeRLP pairs and the handlers built on them. One open known finding (nil tag accepts the empty list).",
          "solver-based symbolic execution of go/ssa (bv) over fully symbolic byte buffers"),
  "C15": ("Each computational opcode's real execute function (from the real Istanbul jump table) on arbitrary 256-bit operands with sentinel, shared intPool and aliasing checks; oracle = SMT-LIB 256-bit BV theory, or Yellow-Paper integer definitions (DIV/SDIV/MOD/SMOD/ADDMOD/MULMOD/EXP).",
-         "Trusted: gosym incl. its big.Int model (520-bit two's complement / SMT Int), z3; EXP exponent bounded; memory/storage opcodes outside.",
+         "Trusted: gosym incl. its big.Int model (520-bit two's complement / SMT Int), z3; EXP: full width for exponents <= 7/15, modulo 2^8 for sparse multi-limb exponents (2/3 limbs); memory/storage opcodes outside.",
          "solver-based symbolic execution of go/ssa, equivalence against bit-vector / integer specifications"),
  "C16": ("One call frame = the inductive step over call depth: real Call/CallCode/DelegateCall/StaticCall/create against a recording fake of vm.StateDB with the callee replaced by an arbitrary outcome: snapshot before every mutation, revert-to-that-snapshot last on failure, all gas burnt unless REVERT, refusals touch nothing and return the gas; the real interpreter loop in read-only mode over all 256 opcode bytes of the real jump table.",
-         "Trusted: gosym, z3; callee summary (mutates only through vm.StateDB, leaves gas <= given). NOT covered: whole multi-contract programs, SELFDESTRUCT burn, opCall* gas forwarding; the journal itself is C09.",
+         "Trusted: gosym, z3; callee summary (mutates only through vm.StateDB, leaves gas <= given). NOT covered: whole multi-contract programs, SELFDESTRUCT burn, opCall* gas forwarding; the journal itself is C09 (its committed-view twin harness also runs here).",
          "solver-based symbolic execution of go/ssa (bv), one inductive frame with an arbitrary callee summary"),
- "C17": ("Signer V/network-id arithmetic, signature value ranges and hash binding on symbolic V/R/S/ids with recovery and rlpHash idealised; the real ApplyMessageEntry (preCheck, buyGas, IntrinsicGas, UseGas, refundGas, GasPool) on the real StateDB with an arbitrary gas-monotone converter step: refusals change nothing, exact charge, refund <= half.",
+ "C17": ("Signer V/network-id arithmetic, signature value ranges and hash binding on symbolic V/R/S/ids with recovery and rlpHash idealised; the real ApplyMessageEntry (preCheck, buyGas, IntrinsicGas, UseGas, refundGas, GasPool) on the real StateDB with an arbitrary gas-monotone converter step: refusals change nothing, exact charge, refund <= half; the staking module's TxConverter.ApplyMessage meets the converter contract assumed there (nonce +1 failed or not, reported gas = consumed gas; protocol versions 4 and 5).",
          "Trusted: gosym, z3; secp256k1 and rlpHash injectivity idealised; one of r,s full length. One open known finding (pre-refund gasUsed).",
          "solver-based symbolic execution of go/ssa (bv / SMT Int)"),
  "C18": ("Bounded symbolic histories over the real download queue (Schedule, ReserveBodies, DeliverBodies, CancelBodies, Revoke, ExpireBodies, Results, real prque, peer lacking sets) in FullSync: ghost accounting of every header across task queue / peer requests / done set, strictly ascending gap-free single release with the body matching the transaction root, refusals of unsolicited data, then completion with one honest peer.",
-         "Trusted: gosym, z3; Header.Hash / DeriveSha idealised as injective; 6-slot result window. NOT covered: liveness beyond the completion phase, goroutine layer of downloader.go/fetcher.go, receipts/FastSync, skeleton filling, memory throttling.",
+         "Trusted: gosym, z3; Header.Hash / DeriveSha idealised as injective; 6-slot result window (2-slot under 4 headers in the window entry). NOT covered: liveness beyond the completion phase, goroutine layer of downloader.go/fetcher.go, receipts/FastSync, skeleton filling, memory throttling.",
          "solver-based bounded symbolic execution of go/ssa (histories of 3 / 5 operations, 2 / 3 headers, 2 peers)"),
  "C19": ("Scheduler half: the real trie.Sync (NewSync, Missing, Process, schedule, children, commit, Pending) and priority queue over every small source DAG given by a symbolic child table and every response order / repetition / unsolicited delivery within the bound: children complete before parents, Pending()=0 exactly when every reachable node is stored, refusals change nothing, counters never negative, nothing stored twice.",
          "Trusted: gosym, z3; decodeNode replaced by a table lookup. NOT covered: that delivered bytes hash to the requested key (keccak in goroutines of triesync.go), state-sync leaf callback, content equality after sync.",
